@@ -8,6 +8,51 @@ COMMON_TRUSTED = [
 ]
 
 PROPS = {
+    "C04": {
+        "lean": ["UgoVerif.Props.C04"],
+        "gen": ["EncTags.lean", "EncBuiltins.lean"],
+        "streams": ["enc"],
+        "required_theorems": ["varint_roundtrip", "uvarint_roundtrip", "varintConv_roundtrip", "object_roundtrip",
+                              "object_roundtrip_exact", "negative_zero_roundtrip", "bytecode_roundtrip",
+                              "positions_survive", "norm_only_representation", "normCF_spec", "norm_idem",
+                              "decode_twice", "tags_distinct", "field_numbers", "C04_partial"],
+        "trusted": [
+            "hand model Model/Enc.lean (varints, every tagged codec, CompiledFunction field elision, SourceFile(Set), header and field loop, fixObjects) tied by stream `enc`: implementation-encoded constants and bytecodes decoded by the model (structural comparison) and re-encoded by the model byte-identically",
+            "gob (encoding/gob fallback for object types without a binary marshaler) is a parameter assumed to round-trip (Encodable C (.gob ..))",
+            "varints are modelled arithmetically (x | b<<s on disjoint bits as x + b*2^s, zig-zag as 2x / -2x-1)",
+        ],
+        "assumptions": [
+            "behavioural half: C04_full is stated over an abstract `run`; C04_partial proves it from the hypothesis that `run` does not observe what norm/fixObjects change (VM model not yet available); the `enc` stream checks original vs decoded vs re-decoded runs (value / error name+message / stack trace) on the implementation",
+            "nil and empty slices/maps are identified in the model (except SyncMap.Value, Instructions, SourceMap, Constants, where the encoder itself distinguishes them)",
+            "lengths fit Go's int (< 2^63); the decoder model has enough fuel (need o <= fuel)",
+            "fix_rebinds (fixObjects re-binds every module item to the live object) is checked by the `enc` stream, not proved",
+        ],
+        "partial": [
+            {"theorem": "C04_partial", "full": "C04_full",
+             "missing": "instantiation of `run` by the VM model and the proof that norm (Free dropped, non-positive counts -> 0) and fixObjects (module items re-bound to the live objects) are unobservable by it; compile-model lemma: constants never carry free variables"},
+        ],
+    },
+    "C18": {
+        "lean": ["UgoVerif.Props.C18"],
+        "gen": ["EncTags.lean", "EncBuiltins.lean"],
+        "streams": ["dec"],
+        "timeout": 3000,
+        "required_theorems": ["decode_no_panic", "decodeObject_no_panic", "decode_no_panic_versions", "decode_alloc",
+                              "decodeObject_alloc", "decode_alloc_partial"],
+        "trusted": [
+            "hand model Model/Enc.lean of the repaired decoder; every slice expression, `data[0]` in toVarint and (before the repair) every unchecked type assertion and make() is a panic branch; tied by stream `dec` (all truncations, sampled single/double-byte corruptions, arbitrary bytes: decoded object text / error / panic compared with the implementation)",
+            "gob is a parameter assumed total, not un-reading input (GobRest) and allocation-bounded (GobAlloc)",
+            "the version-1 instruction converter (encoder/v1.go, property C11) is the parameter `conv`, assumed not to panic (C11 conv_total)",
+        ],
+        "assumptions": [
+            "allocation: decode_alloc bounds every single allocation by a*|bs|+b; the *sum* is not linear (each nesting level re-buffers its payload): C18_alloc_full is stated, not proved, and reported as known finding C18:alloc-nesting",
+            "Go stack exhaustion on extreme nesting and the allocations of encoding/gob itself are outside the model",
+        ],
+        "partial": [
+            {"theorem": "decode_alloc_partial", "full": "C18_alloc_full",
+             "missing": "total (summed) allocation linear in the input: false for nested containers (quadratic in nesting depth), see known finding C18:alloc-nesting"},
+        ],
+    },
     "C15": {
         "lean": ["UgoVerif.Props.C15"],
         "gen": ["Numeric.lean", "NumericSimp.lean"],
